@@ -150,7 +150,7 @@ class C14(Check):
 
         for m in W.manifests():
             tags = m.get("tags", {})
-            want = (tags.get("present") or tags.get("present_spelling") or ["security"])[0]
+            want = (tags.get("use") or tags.get("present") or tags.get("present_spelling") or ["security"])[0]
             cid = next(c for c, n in NEEDS.items() if n[0] == want and c != "pixee:python/sandbox-process-creation")
             rng = random.Random(f"c14-fixed-{m['idx']}")
             r = G.pick_snippet(rng, cid)
